@@ -34,7 +34,7 @@ NOT_DEEPCOPYABLE = {"MappingProxyType"}
 def raw_attribute_writes(an: Analysis):
     """object.__setattr__/__delattr__ calls anywhere; vars(x)[..] / x.__dict__ writes in haiway.state."""
     out = []
-    for fi in an.prog.functions.values():
+    for fi in an.prog.scan_functions():
         for n in fi.own_nodes():
             if isinstance(n, ast.Call):
                 d = dotted(n.func)
